@@ -388,9 +388,18 @@ fn make_vm(proto: bool, budget: u64) -> vm::VM<H> {
 type Excerpt = (String, usize, String);
 
 enum Outcome {
-    Ok(String),
+    /// output, number of recoverable errors that were reported and recovered from
+    Ok(String, usize),
     /// error title, rendered text, excerpts of the primary trace and the stack.
-    Err { title: String, rendered: Result<String, String>, kind: &'static str, excerpts: Vec<Excerpt>, n_recovered: usize },
+    Err {
+        title: String,
+        rendered: Result<String, String>,
+        kind: &'static str,
+        /// the trace `format_error` prints first: (excerpt, line number)
+        primary: Option<(Excerpt, usize)>,
+        excerpts: Vec<Excerpt>,
+        n_recovered: usize,
+    },
     Panic(String),
     Budget,
 }
@@ -426,7 +435,7 @@ fn run_program(src: &str, proto: bool, budget: u64) -> Outcome {
     match r {
         Err(msg) if msg.contains(BUDGET_MSG) => Outcome::Budget,
         Err(msg) => Outcome::Panic(msg),
-        Ok((Ok(s), _)) => Outcome::Ok(s),
+        Ok((Ok(s), n)) => Outcome::Ok(s, n),
         Ok((Err(e), n_recovered)) => {
             let title = caught(|| e.error.title()).unwrap_or_else(|m| format!("<title panicked: {m}>"));
             let kind = match caught(|| e.error.kind()) {
@@ -436,8 +445,20 @@ fn run_program(src: &str, proto: bool, budget: u64) -> Outcome {
                 Err(_) => "kind-panicked",
             };
             let excerpts = excerpts_of(&e);
+            // the same choice as `error::display::format_error`
+            let primary = caught(|| match e.error.kind() {
+                error::Kind::Token(t) => e.token_traces.get(&t).cloned(),
+                error::Kind::EndOfInput => e.end_of_input_trace.clone(),
+                error::Kind::FailedPrecondition => match e.error.source_code_trace_override() {
+                    Some(t) => Some(t.clone()),
+                    None => e.stack_trace.last().map(|s| s.trace.clone()),
+                },
+            })
+            .ok()
+            .flatten()
+            .map(|t| ((t.line_content.clone(), t.index, t.value.clone()), t.line_number));
             let rendered = caught(|| format!("{e}"));
-            Outcome::Err { title, rendered, kind, excerpts, n_recovered }
+            Outcome::Err { title, rendered, kind, primary, excerpts, n_recovered }
         }
     }
 }
@@ -792,6 +813,7 @@ impl<'a> Gen<'a> {
 
 struct C09 {
     driver_path: String,
+    debug: bool,
 }
 
 const MODES: &[&str] = &["e", "s", "n", "b"];
@@ -808,8 +830,11 @@ impl C09 {
             Outcome::Budget => {
                 o.tag("outcome:budget (not counted)");
             }
-            Outcome::Ok(_) => {
+            Outcome::Ok(_, n) => {
                 o.tag("outcome:ok");
+                if n > 0 {
+                    o.tag("recovered-errors>0");
+                }
                 o.nontrivial = true;
             }
             Outcome::Panic(msg) => {
@@ -817,7 +842,7 @@ impl C09 {
                 o.nontrivial = true;
                 o.fail(Kind::ImplPanic, "run", sig_of_panic(&msg), format!("the VM panicked: {msg}"));
             }
-            Outcome::Err { title, rendered, kind, excerpts, n_recovered } => {
+            Outcome::Err { title, rendered, kind, primary, excerpts, n_recovered } => {
                 o.tag("outcome:error");
                 o.tag(format!("error-kind:{kind}"));
                 if n_recovered > 0 {
@@ -850,49 +875,84 @@ impl C09 {
                     }
                 }
                 // excerpt arithmetic vs the Lean model / spec
-                for (line, index, value) in excerpts.iter().take(6) {
+                let plain = rendered.as_ref().ok().map(|t| strip_ansi(t));
+                // what the real rendering printed under the primary source line
+                let underline: Option<(usize, usize)> = plain.as_ref().and_then(|p| {
+                    let lines: Vec<&str> = p.lines().collect();
+                    let i = lines.iter().position(|l| l.contains(">>> "))?;
+                    let l = lines.get(i + 3)?;
+                    let rest = &l[l.find("| ")? + 2..];
+                    let sp = rest.chars().take_while(|c| *c == ' ').count();
+                    let ca = rest.chars().skip(sp).take_while(|c| *c == '^').count();
+                    Some((sp, ca))
+                });
+                let mut list: Vec<(Excerpt, Option<(usize, usize)>)> = vec![];
+                if let Some((p, _)) = &primary {
+                    // a line content with a line break of its own (\r, U+2028 are not) cannot occur
+                    list.push((p.clone(), underline));
+                }
+                for e in excerpts.iter().take(5) {
+                    if Some(e) != primary.as_ref().map(|(p, _)| p) {
+                        list.push((e.clone(), None));
+                    }
+                }
+                for ((line, index, value), under) in &list {
                     if line.len() > 400 {
                         continue;
                     }
+                    let nch = value.chars().count();
+                    let (sp, ca) = under.unwrap_or((*index, nch));
                     let req = format!(
-                        "exc {} {} {} {}",
+                        "exc {} {} {} {} {} | {}",
                         index,
+                        nch,
                         value.len(),
-                        join(&value.chars().map(|c| c as u32).collect::<Vec<_>>()),
-                        format!("| {}", join(&line.chars().map(|c| c as u32).collect::<Vec<_>>()))
+                        sp,
+                        ca,
+                        join(&line.chars().map(|c| c as u32).collect::<Vec<_>>())
                     );
                     let rep = drv.ask(&req);
-                    // reply: "<model: panic | ok a b c> ; <spec: total=0/1 located=0/1/na>"
-                    let model_panics = rep.starts_with("panic");
+                    // reply: "panic" | "ok <code points> ; located=<0|1> old=<panic|same|diff>"
                     if rep.starts_with("bad") {
                         o.fail(Kind::ModelVsSpec, "excerpt", "driver: bad request", format!("{req} -> {rep}"));
                         continue;
                     }
-                    o.tag(if model_panics { "excerpt:model-panics" } else { "excerpt:model-ok" });
-                    let impl_panics = matches!(&rendered, Err(m) if m.contains("display.rs"));
-                    if let Ok(text) = &rendered {
-                        if model_panics {
-                            o.fail(Kind::ImplVsModel, "excerpt", "excerpt: model panics, code renders", format!("{req} -> {rep}; rendered {text}"));
-                        } else {
+                    let model_panics = rep.starts_with("panic");
+                    o.tag(if model_panics { "excerpt:model-panics".to_string() } else { format!("excerpt:model-ok,{}", rep.rsplit(' ').next().unwrap_or("")) });
+                    if model_panics {
+                        // impossible while `excerpt_total` holds
+                        o.fail(Kind::ModelVsSpec, "excerpt", "excerpt: model panics", format!("{req} -> {rep}"));
+                        continue;
+                    }
+                    match &plain {
+                        Some(plain) => {
                             // the model's excerpt line must appear in the rendering
-                            let want = rep.split(" ; ").next().unwrap_or("").strip_prefix("ok ").unwrap_or("");
-                            let want: String = want.split_ascii_whitespace().filter_map(|w| w.parse::<u32>().ok()).filter_map(char::from_u32).collect();
-                            let plain = strip_ansi(text);
-                            if !plain.contains(&want) {
-                                o.fail(Kind::ImplVsModel, "excerpt", "excerpt: text differs", format!("model excerpt {want:?} not in rendering {plain:?}"));
+                            let want = rep.split(" ; ").next().unwrap_or("").strip_prefix("ok").unwrap_or("");
+                            let want: String =
+                                want.split_ascii_whitespace().filter_map(|w| w.parse::<u32>().ok()).filter_map(char::from_u32).collect();
+                            if !plain.contains(want.trim_end()) {
+                                o.fail(
+                                    Kind::ImplVsModel,
+                                    "excerpt",
+                                    "excerpt: text differs",
+                                    format!("model excerpt {want:?} not in rendering {plain:?}"),
+                                );
+                            }
+                            if rep.contains("located=0") {
+                                o.tag("excerpt:mislocated");
+                                o.fail(
+                                    Kind::ImplVsSpec,
+                                    "excerpt",
+                                    "excerpt underline does not match the token",
+                                    format!(
+                                        "line {line:?}: token {value:?} ({nch} characters) at character {index}, but the rendering underlines {ca} characters after {sp} spaces"
+                                    ),
+                                );
                             }
                         }
-                    } else if impl_panics && !model_panics && excerpts.len() == 1 {
-                        o.fail(Kind::ImplVsModel, "excerpt", "excerpt: code panics, model renders", format!("{req} -> {rep}"));
-                    }
-                    if rep.contains("located=0") && rendered.is_ok() {
-                        o.tag("excerpt:mislocated");
-                        o.fail(
-                            Kind::ImplVsSpec,
-                            "excerpt",
-                            "excerpt highlights the wrong text",
-                            format!("line {line:?} index {index} value {value:?}: the highlighted bytes are not the token ({rep})"),
-                        );
+                        None => {
+                            // the rendering panicked (reported above); the model says it must not
+                        }
                     }
                 }
             }
@@ -917,11 +977,8 @@ impl C09 {
         let contract = !evs.iter().any(|e| e.starts_with("ign") || *e == "spur");
         o.tag(if contract { "proto:contract-respected" } else { "proto:contract-violated" });
         let got = match run_program(&src, true, 100_000) {
-            Outcome::Ok(_) => "ok".to_string(),
-            Outcome::Err { n_recovered, .. } => {
-                let _ = n_recovered;
-                "err".to_string()
-            }
+            Outcome::Ok(..) => "ok".to_string(),
+            Outcome::Err { .. } => "err".to_string(),
             Outcome::Panic(m) if m.contains("shutdown signal ignored") => "panic-ignored".to_string(),
             Outcome::Panic(m) if m.contains("unreachable") => "panic-unreachable".to_string(),
             Outcome::Panic(m) => format!("panic-other {m}"),
@@ -943,46 +1000,83 @@ impl C09 {
         }
     }
 
-    /// Small kernels: run a one-line program and report (errored?, output) vs the Lean model.
-    fn kernel(&mut self, case: &str, src: &str, drv: &mut Driver, o: &mut CaseOutcome, stream: &str) {
-        // scroll mode: recoverable errors are recorded and execution continues
-        let full = format!("\\scrollmode {src}");
-        let (got, detail) = match run_program(&full, false, 200_000) {
-            Outcome::Ok(out) => ("ok".to_string(), out),
-            Outcome::Err { title, .. } => ("fatal".to_string(), title),
-            Outcome::Panic(m) => {
-                o.fail(Kind::ImplPanic, stream, sig_of_panic(&m), format!("{src}: {m}"));
-                ("panic".to_string(), m)
-            }
-            Outcome::Budget => ("budget".to_string(), String::new()),
-        };
+    /// Small kernels: run a one-line program in scroll mode (recoverable errors are counted and
+    /// execution continues) and compare verdict and value with the Lean model.
+    /// `mk_src(model_value)` builds the program from the value the model says is used.
+    fn kernel(&mut self, case: &str, stream: &str, drv: &mut Driver, o: &mut CaseOutcome, mk_src: &dyn Fn(&str, i64) -> (String, String)) {
         let rep = drv.ask(case);
         o.nontrivial = true;
-        o.tag(format!("{stream}:{}", rep.split(' ').next().unwrap_or("")));
-        if got == "panic" {
-            if rep.starts_with("panic") {
-                o.fail(Kind::ModelVsSpec, stream, format!("{stream}: model panics"), rep);
-            }
+        let mut it = rep.split(' ');
+        let verdict = it.next().unwrap_or("").to_string();
+        let value: i64 = it.next().and_then(|w| w.parse().ok()).unwrap_or(-1);
+        o.tag(format!("{stream}:{verdict}"));
+        if !matches!(verdict.as_str(), "ok" | "err" | "some" | "none") {
+            o.fail(Kind::ModelVsSpec, stream, format!("{stream}: model answers {verdict}"), format!("{case} -> {rep}"));
             return;
         }
-        // model reply: "ok <text>" (expected output, trimmed) or "err <text>" (recovered; output after recovery)
-        let mut it = rep.splitn(2, ' ');
-        let verdict = it.next().unwrap_or("");
-        let want_out = it.next().unwrap_or("").trim();
-        let recovered = {
-            // an error was reported iff the terminal saw one
-            detail.is_empty() && false
-        };
-        let _ = recovered;
-        let out = detail.trim().to_string();
-        match verdict {
-            "ok" | "err" => {
-                if got != "ok" || out != want_out {
-                    o.fail(Kind::ImplVsModel, stream, format!("{stream}: value differs"), format!("{src}: real {got} {out:?}, model {rep}"));
+        let (src, want_out) = mk_src(&verdict, value);
+        let full = format!("\\scrollmode {src}");
+        match run_program(&full, false, 200_000) {
+            Outcome::Ok(out, n_err) => {
+                let got_verdict = if n_err > 0 { "err" } else { "ok" };
+                let want_verdict = if verdict == "err" { "err" } else { "ok" };
+                if got_verdict != want_verdict {
+                    o.fail(Kind::ImplVsModel, stream, format!("{stream}: error/no error differs"), format!("{src}: real reported {n_err} errors, model {rep}"));
+                }
+                if out.trim() != want_out {
+                    o.fail(Kind::ImplVsModel, stream, format!("{stream}: value differs"), format!("{src}: real output {:?}, expected {want_out:?} (model {rep})", out.trim()));
                 }
             }
-            _ => o.fail(Kind::ModelVsSpec, stream, format!("{stream}: bad driver reply"), rep),
+            Outcome::Err { title, .. } => {
+                o.fail(Kind::ImplVsModel, stream, format!("{stream}: fatal error"), format!("{src}: fatal error {title}, model {rep}"));
+            }
+            Outcome::Panic(m) => {
+                o.fail(Kind::ImplPanic, stream, sig_of_panic(&m), format!("{src}: {m}"));
+            }
+            Outcome::Budget => o.fail(Kind::ModelVsSpec, stream, "budget", src),
         }
+    }
+
+    /// Error location: `prefix` (plain text, several lines, non-ASCII) followed by an undefined
+    /// control sequence; the trace of the error token is compared with the Lean `trace`.
+    fn loc_stream(&mut self, prefix: &str, drv: &mut Driver, o: &mut CaseOutcome) {
+        let src = format!("{prefix}\\undefinedcs rest");
+        let off = prefix.chars().count();
+        o.nontrivial = true;
+        if !prefix.is_ascii() {
+            o.tag("loc:non-ascii");
+        }
+        if prefix.contains('\n') {
+            o.tag("loc:multi-line");
+        }
+        let rep = drv.ask(&format!("trace {} | {}", off, join(&src.chars().map(|c| c as u32).collect::<Vec<_>>())));
+        match run_program(&src, false, 100_000) {
+            Outcome::Err { title, primary: Some(((line, index, value), line_number)), rendered, .. } => {
+                if let Err(m) = rendered {
+                    o.fail(Kind::ImplPanic, "render", sig_of_panic(&m), format!("rendering `{title}` panicked: {m}"));
+                }
+                let got = format!("ok {} {} {}", line_number, index, join(&line.chars().map(|c| c as u32).collect::<Vec<_>>()));
+                if got.trim_end() != rep.trim_end() || value != "\\undefinedcs" || title != "undefined control sequence" {
+                    o.fail(Kind::ImplVsModel, "loc", "trace: line/position/content differs", format!("{src:?}: real {got} ({title}, {value}), model {rep}"));
+                }
+                // S: the located character really is the start of the token
+                let at: String = line.chars().skip(index).take(12).collect();
+                if at != "\\undefinedcs" {
+                    o.fail(Kind::ImplVsSpec, "loc", "error location does not point at the token", format!("{src:?}: line {line:?} index {index}"));
+                }
+            }
+            Outcome::Panic(m) => o.fail(Kind::ImplPanic, "loc", sig_of_panic(&m), format!("{src:?}: {m}")),
+            _ => o.fail(Kind::ImplVsModel, "loc", "trace: no located error", format!("{src:?}")),
+        }
+    }
+}
+
+/// A number as TeX source; -2^31 cannot be written as a constant.
+fn num_src(n: i64) -> (String, String) {
+    if n == -2147483648 {
+        ("\\count9=-2147483647 \\advance\\count9 by -1 ".into(), "\\count9".into())
+    } else {
+        (String::new(), format!("{n} "))
     }
 }
 
@@ -1091,7 +1185,20 @@ impl Property for C09 {
                 1 => r.range(0x10FF00, 0x110100),
                 _ => interesting_i32(&mut r) as i64,
             };
+            if (2..128).contains(&n) && n != 65 && n != 127 {
+                continue; // changing the category of ASCII syntax characters breaks the probe program
+            }
             out.push(format!("chr {n}"));
+        }
+        // --- error location
+        for p in ["", "a", "\n", "\u{e9}", "\u{e9}\n", "a\n\u{e9}", "\n\n\n", "a \u{1f600}\u{1f600} b\n\u{4e16}\u{754c} "] {
+            out.push(format!("loc {}", enc(p)));
+        }
+        let alphabet = ["a", "b", " ", "\n", "\u{e9}", "\u{4e16}", "\u{1f600}", "\u{df}", "\u{a0}", "\u{2028}", "\u{feff}", "1", ".", "\n\n", "  ", "x y"];
+        for _ in 0..(if ctx.thorough { 3000 } else { 400 }) {
+            let n = r.below(13);
+            let p: String = (0..n).map(|_| *r.pick(&alphabet)).collect();
+            out.push(format!("loc {}", enc(&p)));
         }
         for big_n in [16i64, 256, 32768] {
             for n in [-2147483648i64, -1, 0, 1, big_n - 1, big_n, big_n + 1, 2147483647] {
@@ -1154,74 +1261,10 @@ impl Property for C09 {
     }
 
     fn run_case(&mut self, case: &str, drv: &mut Driver) -> CaseOutcome {
-        let mut o = CaseOutcome::default();
-        let (stream, rest) = case.split_once(' ').unwrap_or((case, ""));
-        o.tag(format!("stream:{stream}"));
-        match stream {
-            "run" => {
-                let (mode, prog) = rest.split_once(' ').unwrap_or((rest, ""));
-                let prog = dec(prog);
-                self.run_stream(mode, &prog, drv, &mut o);
-            }
-            "proto" => {
-                let mut ws = rest.split_ascii_whitespace();
-                let mode = ws.next().unwrap_or("e");
-                let evs: Vec<&str> = ws.collect();
-                self.proto_stream(mode, &evs, drv, &mut o);
-            }
-            "chr" => {
-                let n: i64 = rest.trim().parse().unwrap_or(0);
-                let src = format!("\\catcode {n}=12 \\the\\catcode {n} ");
-                self.kernel(case, &src, drv, &mut o, "chr");
-            }
-            "uint" => {
-                let v = parse_i64s(rest);
-                let (big_n, n) = (v[0], v[1]);
-                let src = match big_n {
-                    16 => format!("\\openin {n}=a \\ifeof {n} closed\\else open\\fi"),
-                    256 => format!("\\toks {n}={{v}}\\the\\toks {n} /\\the\\toks 0 "),
-                    _ => format!("\\count {n}=7 \\the\\count {n} /\\the\\count 0 "),
-                };
-                self.kernel(case, &src, drv, &mut o, "uint");
-            }
-            "ifcase" => {
-                let v = parse_i64s(rest);
-                let (n, k) = (v[0], v[1]);
-                let mut src = format!("\\count1={} ", if n == -2147483648 { "-2147483647 \\advance\\count1 by -1".to_string() } else { n.to_string() });
-                src.push_str("\\ifcase\\count1 c0");
-                for i in 1..=k {
-                    src.push_str(&format!("\\or c{i}"));
-                }
-                src.push_str("\\else e\\fi");
-                self.kernel(case, &src, drv, &mut o, "ifcase");
-            }
-            "deep" => {
-                let n: usize = rest.trim().parse().unwrap_or(1000);
-                o.nontrivial = true;
-                let exe = std::env::current_exe().unwrap();
-                let st = std::process::Command::new(exe)
-                    .args(["--replay-case", &format!("deepchild {n}"), "--driver", &self.driver_path])
-                    .stdout(std::process::Stdio::null())
-                    .stderr(std::process::Stdio::null())
-                    .status();
-                match st {
-                    Ok(s) if s.code() == Some(0) => o.tag("deep:ok"),
-                    Ok(s) => {
-                        o.tag("deep:killed");
-                        o.fail(Kind::ImplPanic, "deep", "stack overflow in next_expanded", format!("{n} consecutive empty macro expansions on the default main-thread stack: child ended with {s:?} (stack overflow aborts the process)"));
-                    }
-                    Err(e) => o.fail(Kind::ModelVsSpec, "deep", "cannot spawn child", e.to_string()),
-                }
-            }
-            "deepchild" => {
-                let n: usize = rest.trim().parse().unwrap_or(1000);
-                let src = format!("\\def\\a{{}}{}done", "\\a".repeat(n));
-                match run_program(&src, false, u64::MAX / 2) {
-                    Outcome::Ok(_) => {}
-                    _ => o.fail(Kind::ImplPanic, "deep", "deep: not ok", "child run failed"),
-                }
-            }
-            _ => o.fail(Kind::ModelVsSpec, "case", "bad case", case.to_string()),
+        let t0 = std::time::Instant::now();
+        let o = self.run_case_inner(case, drv);
+        if self.debug && t0.elapsed().as_millis() > 50 {
+            eprintln!("SLOW {} ms: {}", t0.elapsed().as_millis(), case);
         }
         o
     }
@@ -1281,6 +1324,88 @@ impl Property for C09 {
     }
 }
 
+impl C09 {
+    fn run_case_inner(&mut self, case: &str, drv: &mut Driver) -> CaseOutcome {
+        let mut o = CaseOutcome::default();
+        let (stream, rest) = case.split_once(' ').unwrap_or((case, ""));
+        o.tag(format!("stream:{stream}"));
+        match stream {
+            "run" => {
+                let (mode, prog) = rest.split_once(' ').unwrap_or((rest, ""));
+                let prog = dec(prog);
+                self.run_stream(mode, &prog, drv, &mut o);
+            }
+            "proto" => {
+                let mut ws = rest.split_ascii_whitespace();
+                let mode = ws.next().unwrap_or("e");
+                let evs: Vec<&str> = ws.collect();
+                self.proto_stream(mode, &evs, drv, &mut o);
+            }
+            "chr" => {
+                let n: i64 = rest.trim().parse().unwrap_or(0);
+                let (pre, lit) = num_src(n);
+                // the category code of the (accepted or recovered) character becomes 7
+                self.kernel(case, "chr", drv, &mut o, &|_, c| (format!("{pre}\\catcode {lit}=7 \\the\\catcode {c} "), "7".into()));
+            }
+            "uint" => {
+                let v = parse_i64s(rest);
+                let (big_n, n) = (v[0], v[1]);
+                let (pre, lit) = num_src(n);
+                self.kernel(case, "uint", drv, &mut o, &|_, u| match big_n {
+                    16 => (format!("{pre}\\openin {lit}=a \\ifeof {u} closed\\else open\\fi"), "open".into()),
+                    256 => (format!("{pre}\\toks {lit}={{v}}\\the\\toks {u} "), "v".into()),
+                    _ => (format!("{pre}\\count {lit}=7 \\the\\count {u} "), "7".into()),
+                });
+            }
+            "ifcase" => {
+                let v = parse_i64s(rest);
+                let (n, k) = (v[0], v[1]);
+                let (pre, lit) = num_src(n);
+                let mut src = format!("{pre}\\ifcase {lit}c0");
+                for i in 1..=k {
+                    src.push_str(&format!("\\or c{i}"));
+                }
+                src.push_str("\\else e\\fi");
+                self.kernel(case, "ifcase", drv, &mut o, &|verdict, j| (src.clone(), if verdict == "some" { format!("c{j}") } else { "e".into() }));
+            }
+            "loc" => {
+                let prefix = dec(rest);
+                self.loc_stream(&prefix, drv, &mut o);
+            }
+            "deep" => {
+                let n: usize = rest.trim().parse().unwrap_or(1000);
+                o.nontrivial = true;
+                let exe = std::env::current_exe().unwrap();
+                let st = std::process::Command::new(exe)
+                    .args(["--replay-case", &format!("deepchild {n}"), "--driver", &self.driver_path])
+                    .stdout(std::process::Stdio::null())
+                    .stderr(std::process::Stdio::null())
+                    .status();
+                match st {
+                    Ok(s) if s.code() == Some(0) => o.tag("deep:ok"),
+                    Ok(s) => {
+                        o.tag("deep:killed");
+                        o.fail(Kind::ImplPanic, "deep", "stack overflow in next_expanded", format!("{n} consecutive empty macro expansions on the default main-thread stack: child ended with {s:?} (stack overflow aborts the process)"));
+                    }
+                    Err(e) => o.fail(Kind::ModelVsSpec, "deep", "cannot spawn child", e.to_string()),
+                }
+            }
+            "deepchild" => {
+                let n: usize = rest.trim().parse().unwrap_or(1000);
+                let src = format!("\\def\\a{{}}{} done", "\\a".repeat(n));
+                match run_program(&src, false, u64::MAX / 2) {
+                    Outcome::Ok(..) => {}
+                    Outcome::Panic(m) => o.fail(Kind::ImplPanic, "deep", "deep: not ok", format!("child run panicked: {m}")),
+                    Outcome::Budget => o.fail(Kind::ImplPanic, "deep", "deep: not ok", "child run: budget"),
+                    Outcome::Err { title, .. } => o.fail(Kind::ImplPanic, "deep", "deep: not ok", format!("child run: error {title}")),
+                }
+            }
+            _ => o.fail(Kind::ModelVsSpec, "case", "bad case", case.to_string()),
+        }
+        o
+    }
+}
+
 extern "C" {
     fn mallopt(param: i32, value: i32) -> i32;
 }
@@ -1289,8 +1414,11 @@ fn main() {
     // Every case builds a fresh VM whose register arrays are ~1 MiB: keep such blocks on the
     // heap (no mmap/munmap and page faults per case). glibc: M_MMAP_THRESHOLD=-3, M_TRIM_THRESHOLD=-1.
     unsafe {
-        mallopt(-3, 256 << 20);
-        mallopt(-1, 512 << 20);
+        let a = mallopt(-3, 32 << 20);
+        let b = mallopt(-1, 1 << 30);
+        if std::env::var("C09_DEBUG").is_ok() {
+            eprintln!("mallopt: {a} {b}");
+        }
     }
     // Deep (but budgeted) recursion in the interpreter must not overflow the harness stack.
     let driver_path = {
@@ -1300,12 +1428,12 @@ fn main() {
     let deep_child = std::env::args().any(|a| a.starts_with("deepchild"));
     if deep_child {
         // default main-thread stack on purpose
-        run(C09 { driver_path });
+        run(C09 { driver_path, debug: std::env::var("C09_DEBUG").is_ok() });
         return;
     }
     let h = std::thread::Builder::new()
         .stack_size(1 << 30)
-        .spawn(move || run(C09 { driver_path }))
+        .spawn(move || run(C09 { driver_path, debug: std::env::var("C09_DEBUG").is_ok() }))
         .unwrap();
     if h.join().is_err() {
         std::process::exit(101);
